@@ -31,7 +31,7 @@ from vf.report import Evidence, Violation, finish                               
 CHECKS = {
     'C19': dict(
         engine='Registry',
-        technique='TLA+ spec Registry.tla (Worker._active_children under its lock: create run/not-run, die, prune+snapshot by 2 concurrent callers, restart, autoclose) model-checked with TLC incl. the current code as a configuration TLC rejects; TLC-dumped histories replayed on real workers of all six classes; long randomized histories and a two-caller stress run; TLC judges every real run with the C19 operators (RegistryJudge)',
+        technique='Apalache inductive invariant on RegistryInd.tla (histories of any length) + TLA+ spec Registry.tla (Worker._active_children under its lock: create run/not-run, die, prune+snapshot by 2 concurrent callers, restart, autoclose) model-checked with TLC incl. the current code as a configuration TLC rejects; TLC-dumped histories replayed on real workers of all six classes; long randomized histories and a two-caller stress run; TLC judges every real run with the C19 operators (RegistryJudge)',
         text='Exhaustive TLC model checking of the registry algorithm with two concurrent active_children() callers interleaved with creations, deaths, restarts and autoclose; every TLC-enumerated sequential history up to the bound is executed on real workers (thread kinds, plus a sample with process and remote kinds) and judged by TLC; histories with hundreds of creations check that dead workers are not retained (weak references after gc).',
         note='Trusted: TLC; gc + weakref as the observation of "retained"; the driver controls worker lifetimes (targets live until released), so the live set at each call is known. Real two-thread interleavings inside the lock are not controlled (stress only); the interleavings are covered by the model.',
         design_ref='6/C19'),
